@@ -178,6 +178,7 @@ def c07(F, R):
     e3_io.write_loop_rules(F, R, "blocking")
     e3_io.read_rules(F, R, "blocking")
     e3_io.window_rules(F, R)
+    e3_io.ctor_rules(F, R, "blocking")
     framing_rules(F, R)
     e9_witness.witness_rules(F, R)
 
@@ -201,6 +202,7 @@ def c08(F, R):
     e3_io.read_rules(F, R, "async")
     e3_io.guard_rules(F, R)
     e3_io.window_rules(F, R)
+    e3_io.ctor_rules(F, R, "async")
     framing_rules(F, R)
     e9_witness.witness_rules(F, R)
 
